@@ -476,7 +476,7 @@ class CProc(ScriptedMixin, Process):
     def _script_update(self, k, timestep, states):
         up = {}
         for var, amounts in self.spec.get('writes', []):
-            up[var] = self._pick(amounts, k)
+            up[var] = decode_value(copy.deepcopy(self._pick(amounts, k)))
         return {'vars': up} if up else {}
 
 
@@ -528,6 +528,13 @@ def build_cell(template, cellvars, depth_up, parallel=False):
         if parallel and sp.get('parallel', True):
             sparams['_parallel'] = True
         st = TStep(sparams)
+        if template.get('nest') and template.get('nest_steps'):
+            # the step lives next to the nested processes
+            (processes if sp.get('where') == 'processes' else steps).setdefault('sub', {})[sp['name']] = st
+            topology.setdefault('sub', {})[sp['name']] = {'vars': ('..', 'vars'), 'probe': ('..',) + probe}
+            if sp.get('flow') is not None:
+                flow.setdefault('sub', {})[sp['name']] = [tuple(d) for d in sp['flow']]
+            continue
         if sp.get('where') == 'processes':
             processes[sp['name']] = st
         else:
